@@ -31,6 +31,7 @@ class Extraction:
         self.drops = []   # human-readable list of rewrites applied
         self.fns = []     # functions under contract / extracted
         self.auto = {}    # (file, impl) -> [fn names] pulled in by //@autofns after a 'no method named' compile error
+        self.auto_fields = {}  # struct name -> [field names] kept in a projection on demand ('no field X on type S')
 
     def log_span(self, sel, src, pos, text):
         self.spans.append({'selector': sel, 'file': src.path.replace(self.repo + '/', ''),
@@ -73,6 +74,7 @@ def _apply_flags(text, flags, ex, what):
 def render(template_text, repo, ex):
     lines = template_text.split('\n')
     out = []
+    auto_kept = {}
     i = 0
     while i < len(lines):
         ln = lines[i]
@@ -183,6 +185,17 @@ def render(template_text, repo, ex):
                 text = rsx.drop_attrs(text)
             if 'keep' in a:
                 keep = [k for k in a['keep'].split(',') if k]
+                for extra in ex.auto_fields.get(a['name'], []):
+                    # a field the extracted code reads but the template does not list (a refactor added it):
+                    # kept on demand when the real struct has it; harness struct literals get `f: Default::default()`
+                    if extra not in keep:
+                        try:
+                            rsx.project_struct(text, [extra])
+                        except rsx.LostAnchor:
+                            continue
+                        keep.append(extra)
+                        auto_kept.setdefault(a['name'], []).append(extra)
+                        ex.drop('field %s of struct %s kept on demand (read by extracted code, not listed in the template); harness values of %s start it at Default::default()' % (extra, a['name'], a['name']))
                 text = rsx.project_struct(text, keep)
                 ex.drop('struct %s projected to fields %s' % (a['name'], ','.join(keep)))
             text = _apply_flags(text, flags, ex, a['name'])
@@ -266,4 +279,9 @@ def render(template_text, repo, ex):
             ex.drop('block carve of %s (%s .. %s)' % (a['fn'], a['from'], a['to']))
             text = _apply_flags(text, flags, ex, a['fn'])
             out.append(text)
-    return '\n'.join(out)
+    res = '\n'.join(out)
+    for sname, fs in auto_kept.items():
+        ins = ''.join('%s: Default::default(), ' % f for f in fs)
+        # struct literals `S { field: ...` written by the template (definitions are `struct S {`)
+        res = re.sub(r'(?<!struct )(?<!enum )\b' + re.escape(sname) + r'\s*\{(?=\s*[a-z_][A-Za-z0-9_]*\s*:)', lambda mo: mo.group(0) + ' ' + ins, res)
+    return res
